@@ -61,6 +61,10 @@ def make_calls(ctx: Ctx, d: specgen.Doc) -> list[dict]:
                     plan["content_hex"] = ""
                 elif kind == "json":
                     body = instgen.instance(rng, r["schema"], d.sexp, rng.choice(["min", "max", "random"]))
+                    if r["schema"].get("nullable"):
+                        # a nullable body: the two boundary documents are null and the smallest conforming object
+                        body = [None, instgen.instance(rng, dict(r["schema"], nullable=False), d.sexp, "min")][rep % 2]
+                        ctx.rec.count("nullable_bodies_null" if body is None else "nullable_bodies_minimal")
                     plan["json"] = body
                     exp["body"] = body
                 elif kind == "sse":
@@ -181,7 +185,7 @@ def judge(d: specgen.Doc, call: dict, res: dict, rec, feats, case_base) -> None:
 def mk_doc(ctx: Ctx, trig: set[str]) -> specgen.Doc:
     kinds = ["sse", "binary", "text", "ndjson"]
     d = specgen.generate(ctx.rng, allow=trig, prof={"ops": (2, 5), "p_param": 0.3, "p_body": 0.2, "schemas": (2, 5), "p_multi2xx": 0.5,
-                                                    "p_stream": 0.3, "stream_kinds": kinds,
+                                                    "p_stream": 0.3, "stream_kinds": kinds, "p_nullable_response": 0.3,
                                                     "styles": ["camel", "snake", "kebab", "keywordish"], "p_self_ref": 0.0, "p_union": 0.0})
     return d
 
